@@ -327,6 +327,7 @@ func (t *Task) runWithLocking() {
 	}
 
 	// add to queue workgroup
+	verifPoint("tasks.run.add", t.name)
 	queueWg.Add(1)
 
 	go t.executeWithLocking()
@@ -336,6 +337,7 @@ func (t *Task) runWithLocking() {
 		case <-time.After(maxExecutionWait):
 		}
 		// complete queue worker (early) to allow next worker
+		verifPoint("tasks.watch.done", t.name)
 		queueWg.Done()
 	}()
 }
